@@ -40,7 +40,7 @@ struct IterH {
 	void reset() { it.reset(); end.reset(); ait.reset(); aend.reset(); acc.reset(); dit.reset(); dend.reset(); down.reset(); }
 };
 
-struct Client { std::vector<ETH> et; std::vector<IterH> iters; };
+struct Client { std::vector<ETH> et; std::vector<IterH> iters; VATA::AutBase::StateToStateMap trim_map; /* a translation map the client keeps and hands to one trimming call after the other */ };
 
 std::vector<Client> g_clients;
 std::vector<ET::AlphabetType> g_alphas;          // index 0 unused (= library default / global alphabet)
@@ -702,7 +702,8 @@ void op_isect_bu(const Step& s) { do_isect(s, true); }
 void op_unreach(const Step& s) {
 	ETH& a = H(s, 0); TA ma = a.model; int al = a.alpha; StateMap tm;
 	api_begin();
-	ET r = (s.arg(1) & 1) ? a.aut->RemoveUnreachableStates(&tm) : a.aut->RemoveUnreachableStates();
+	// bit 1: the client's long-lived map, as left by its earlier trimming calls (a pipeline that reuses one map)
+	ET r = (s.arg(1) & 2) ? a.aut->RemoveUnreachableStates(&CL(s).trim_map) : ((s.arg(1) & 1) ? a.aut->RemoveUnreachableStates(&tm) : a.aut->RemoveUnreachableStates());
 	api_end();
 	if (armed("C03")) {
 		TA got = read_back(r); count(c_oracle_evals);
@@ -719,7 +720,7 @@ void op_unreach(const Step& s) {
 void op_useless(const Step& s) {
 	ETH& a = H(s, 0); TA ma = a.model; int al = a.alpha; StateMap tm;
 	api_begin();
-	ET r = (s.arg(1) & 1) ? a.aut->RemoveUselessStates(&tm) : a.aut->RemoveUselessStates();
+	ET r = (s.arg(1) & 2) ? a.aut->RemoveUselessStates(&CL(s).trim_map) : ((s.arg(1) & 1) ? a.aut->RemoveUselessStates(&tm) : a.aut->RemoveUselessStates());
 	api_end();
 	if (armed("C03")) {
 		TA got = read_back(r); count(c_oracle_evals);
@@ -1087,12 +1088,25 @@ void op_sim(const Step& s) {
 	if (n == 0) throw Skip();
 	VATA::SimParam sp; sp.SetNumStates(n);
 	sp.SetRelation(up ? VATA::SimParam::e_sim_relation::TA_UPWARD : VATA::SimParam::e_sim_relation::TA_DOWNWARD);
-	VATA::AutBase::StateDiscontBinaryRelation rel = direct ? a.aut->ComputeSimulation(sp) : dense.ComputeSimulation(sp);
+	VATA::AutBase::StateDiscontBinaryRelation rel0 = direct ? a.aut->ComputeSimulation(sp) : dense.ComputeSimulation(sp);
+	// a client may hand the relation on (move-construct another object from it) and reuse its own variable for the relation of
+	// another automaton: the relation it kept must stay what it was
+	std::unique_ptr<VATA::AutBase::StateDiscontBinaryRelation> kept;
+	if (s.arg(3) & 4) {
+		kept.reset(new VATA::AutBase::StateDiscontBinaryRelation(std::move(rel0)));
+		if (n > 1) {
+			// the variable gets the relation of a renumbered copy of the automaton (final and non-final states exchanged in the numbering)
+			MapF f2; std::vector<long> ids; for (long q : dm.states()) ids.push_back(q); for (size_t i = 0; i < ids.size(); ++i) f2.m[ids[i]] = ids[ids.size() - 1 - i];
+			ET other = (direct ? *a.aut : dense).ReindexStates(f2);
+			rel0 = other.ComputeSimulation(sp);
+		}
+	}
+	VATA::AutBase::StateDiscontBinaryRelation& rel = kept ? *kept : rel0;
 	api_end();
 	if (armed("C04")) {
 		count(c_oracle_evals);
 		mdl::Rel want = up ? mdl::up_sim(dm) : mdl::down_sim(dm);
-		const std::string site = std::string(up ? "et_sim:up" : "et_sim:down") + (direct ? ":own-object" : "");
+		const std::string site = std::string(up ? "et_sim:up" : "et_sim:down") + (direct ? ":own-object" : "") + (kept ? ":handed-on" : "");
 		for (long q : dm.states()) for (long p : dm.states()) {
 			bool g; try { g = rel.get(size_t(q), size_t(p)); } catch (const std::exception& e) { violation("C04.relation-domain", site, "relation cannot be queried for an occurring state: " + std::string(e.what())); return; }
 			bool w = want.count(std::make_pair(q, p)) > 0; count(c_sim_pairs_checked);
